@@ -128,3 +128,6 @@ pub fn vnd_timer_alive(_i: u32) -> bool { true }
 pub fn vnd_timer_fire(_i: u32) -> bool { true }
 #[cfg(kani)]
 pub fn vnd_timer_alive(_i: u32) -> bool { true }
+
+/// engine M: the following calls are made by thread role `role` (lock-order analysis); natively a no-op
+pub fn vnd_thread(_role: u32) {}
